@@ -67,7 +67,7 @@ def check(run):
         return mm, info, evs
     with cf.ThreadPoolExecutor(max_workers=4 if quick else 5) as ex:
         results = list(ex.map(one, list(enumerate(shards))))
-    per = {}
+    per = {}; doc = {}
     for mm, info, evs in results:
         for eco, n, rej, tag, smp in evs:
             d = per.setdefault(eco, {"members": 0, "rejected": 0, "pairs": 0})
@@ -83,7 +83,12 @@ def check(run):
         for i in info:
             for d, c in i.get("knownCounts", []):
                 run.known[d] = max(run.known.get(d, 0), c)
+            if "docOrder" in i:   # drift against spec/DocOrder.tla: reported, never a verdict (no property pins these orders)
+                dd = doc.setdefault(i["docOrder"], {"members": 0, "out_of_scope": 0, "pairs_differing": 0, "examples": []})
+                dd["members"] += i["docMembers"]; dd["out_of_scope"] += i["docOutOfScope"]; dd["pairs_differing"] += i["docDrift"]
+                dd["examples"] = (dd["examples"] + i["docExamples"])[:5]
     run.extra["per_ecosystem"] = per
+    run.extra["documented_order_drift"] = doc
     run.extra["universe_sizes"] = {e: len(U[e]) for e in U}
     run.assumptions = ["the bounded universes of spec/Universe.tla (grammar automata) plus seeded universes; "
                        "strings the real parser rejects are counted, not judged",
